@@ -42,6 +42,55 @@ def structured_world(conv, ny, nx, **kw) -> dict:
     return w
 
 
+def shifted(w: dict, dx: int, dy: int) -> dict:
+    """the same world moved by (dx, dy) quanta - e.g. to high latitudes, where a degree of longitude is much shorter
+    than a degree of latitude"""
+    from .worlds import NANQ
+
+    def mv(a, d):
+        if isinstance(a, list):
+            return [mv(x, d) for x in a]
+        return a if a == NANQ else a + d
+    w = dict(w)
+    if w["conv"] == "ugrid":
+        m = dict(w["mesh"])
+        m["nodes"] = [[p[0] + dx, p[1] + dy] for p in m["nodes"]]
+        if m.get("face_centres"):
+            m["face_centres"] = [[p[0] + dx, p[1] + dy] for p in m["face_centres"]]
+        w["mesh"] = m
+    else:
+        g = dict(w["geom"])
+        for k, v in g.items():
+            if isinstance(v, list) and k[:1] in ("x", "y") and k not in ("holes",):
+                g[k] = mv(v, dx if k[0] == "x" else dy)
+        w["geom"] = g
+    return w
+
+
+def scaled(w: dict, f: int) -> dict:
+    """the same world with every coordinate multiplied by f (bigger cells)"""
+    from .worlds import NANQ
+
+    def mul(a):
+        if isinstance(a, list):
+            return [mul(x) for x in a]
+        return a if a == NANQ else a * f
+    w = dict(w)
+    if w["conv"] == "ugrid":
+        m = dict(w["mesh"])
+        m["nodes"] = [[p[0] * f, p[1] * f] for p in m["nodes"]]
+        if m.get("face_centres"):
+            m["face_centres"] = [[p[0] * f, p[1] * f] for p in m["face_centres"]]
+        w["mesh"] = m
+    else:
+        g = dict(w["geom"])
+        for k, v in g.items():
+            if isinstance(v, list) and k[:1] in ("x", "y"):
+                g[k] = mul(v)
+        w["geom"] = g
+    return w
+
+
 def mesh_world(mesh: dict, *, enc: dict | None = None, edges: bool = False, centres: bool = False) -> dict:
     m = dict(mesh)
     e = W.mesh_edges(m["faces"])
@@ -101,6 +150,7 @@ def geo_worlds(tier: str, seed: int, *, convs=W.ALL_CONVS, big: bool = True) -> 
             dict(ny=3, nx=4, shape="skew", bounds=False, holes=[(0, 0)]),
             dict(ny=3, nx=3, shape="skew", bounds=True, holes=[(1, 1), (2, 2)], coords_as="plain"),
             dict(ny=2, nx=2, shape="rect", bounds=True, bowtie=(0, 1)),
+            dict(ny=2, nx=3, shape="rect", bounds=True, bowtie=(0, 0)),      # the only self-intersecting cell is the very first one
             dict(ny=3, nx=4, shape="rect", bounds=True, holes=[(0, 1), (1, 0)], bowtie=(2, 1)),   # cells without geometry BEFORE a self-intersecting one
             dict(ny=1, nx=3, shape="skew", bounds=True), dict(ny=4, nx=3, shape="skew2", bounds=False, holes=[(0, 0), (0, 1)]),
             dict(ny=3, nx=3, shape="rect", bounds=False, holes=[(1, 1)]),      # isolated interior cell without a centre
